@@ -12,3 +12,35 @@ class Engine(DbEngine):
     rule = 'removal/vanish-heavy histories: targets present / absent / already removed; authors with 0..many events across all kind classes; gift wraps (kind 1059) naming the author in the first p tag, a second p tag, as a non-first value, in upper-case hex, and kind-1 look-alikes; resubmission after removal; ephemeral kinds 20000/29999. oracle: exactly the targets disappear (ids/markers/extra equal the abstract store), removed events are accepted again, ephemeral events are never retrievable. non-trivial = history with >= 2 stores'
     trusted = DbEngine.db_trusted
     assumptions = []
+
+    def generate(self, rng, tier):
+        import random
+        from dbgen import HistGen, AUTHORS, fake_id
+        out = super().generate(rng, tier)
+        # a prolific key: several hundred events (and gift wraps naming it), many sharing a created_at second, then vanish:
+        # whatever paging or batching the removal uses, nothing of the key may survive and bystanders must
+        for i in range(3 if tier == "quick" else 40):
+            sub = random.Random(rng.getrandbits(64))
+            g = HistGen(sub, {"new": 1}, 0).run()
+            me, other = AUTHORS[0], AUTHORS[1]
+            n = sub.choice([257, 300, 513]) if tier != "quick" else sub.choice([257, 290])
+            per = sub.choice([2, 3, 7])
+            for j in range(n):
+                e = g.new_event(kind=sub.choice([1, 1, 1, 7]), pk=me, created=100000 + j // per, tags=[])
+                e["content"] = b"p%d" % j
+                e["id"] = fake_id(e)
+                g.op_store(e)
+                g.note_event(e)
+            for j in range(sub.choice([0, 5, 260 if tier != "quick" else 5])):
+                e = g.new_event(kind=1059, pk=other, created=200000 + j // per, tags=[[b"p", me.hex().encode()]])
+                e["content"] = b"g%d" % j
+                e["id"] = fake_id(e)
+                g.op_store(e)
+                g.note_event(e)
+            for j in range(4):
+                e = g.new_event(kind=1, pk=other, created=100000 + j, tags=[])
+                g.op_store(e)
+            g.ops.append(("vanish", me))
+            out.append(("prolific-vanish", g.render(obs_every=400)))
+        return out
+
